@@ -45,6 +45,10 @@ type Case struct {
 	// RegisterField call is made (a warm-up whose response is not looked at) - the bindings the
 	// application registers arrive after the root has already been used.
 	LateRegister bool `json:"late_register,omitempty"`
+	// Decoy (universe): before the root of the case exists, other roots of the same process have
+	// bound the same Go types - with RegisterField mappings that cross the members over (str <->
+	// extra, greet <-> htmlid). Nothing a root is told about its bindings concerns another root.
+	Decoy bool `json:"decoy,omitempty"`
 	// KeepParsed (with LateRegister): the request is parsed once; that parsed request is what is
 	// resolved before the registrations and again after them
 	KeepParsed bool `json:"keep_parsed,omitempty"`
@@ -667,6 +671,19 @@ func NewWorld(c *Case) (*World, error) {
 			}
 		}
 	}
+	if c.Universe && c.Decoy {
+		seen := map[string]bool{}
+		for _, gn := range c.GoType {
+			gn = strings.TrimPrefix(gn, "R")
+			if seen[gn] || gn == "UQuery" || gn == "Vee" || gn == "" {
+				continue
+			}
+			seen[gn] = true
+			if _, ok := universeTypes[gn]; ok {
+				decoyRoot(gn)
+			}
+		}
+	}
 	w.Root = ggql.NewRoot(w.nodeValue(g.Root))
 	if c.AnyInstalled {
 		w.Root.AnyResolver = &anyRes{w: w}
@@ -848,4 +865,25 @@ func FlipBooleans(c *Case) []hx.KV {
 		}
 	}
 	return out
+}
+
+type decoySchema struct {
+	Query interface{}
+}
+
+// decoyRoot builds and uses a root of its own that binds a universe Go type with crossed-over
+// RegisterField mappings.
+func decoyRoot(goName string) {
+	defer func() { _ = recover() }()
+	sample := newUniverseValue(goName, false)
+	r := ggql.NewRoot(&decoySchema{Query: sample.Interface()})
+	if err := r.ParseString("type Query { str: String extra: String greet: String htmlid: String }"); err != nil {
+		return
+	}
+	_ = r.RegisterType(sample.Interface(), "Query")
+	_ = r.RegisterField("Query", "str", "Extra")
+	_ = r.RegisterField("Query", "extra", "Str")
+	_ = r.RegisterField("Query", "greet", "HTMLID")
+	_ = r.RegisterField("Query", "htmlid", "Greet")
+	_ = r.ResolveString("{str extra greet htmlid}", "", nil)
 }
